@@ -1664,7 +1664,9 @@ func (r *Raft) sendInstallSnapshot(id, address string) {
 	response, err := r.transport.SendInstallSnapshot(address, request)
 	r.mu.Lock()
 
-	if follower.snapshot == nil || err != nil {
+	// Quit if the RPC failed or this node is no longer the leader - it may have been
+	// stopped in the meantime.
+	if r.state != Leader || follower.snapshot == nil || err != nil {
 		return
 	}
 
